@@ -75,7 +75,7 @@ func c04(p *model.Prog, r *report.Result) {
 	}
 
 	// ---------------------------------------------------------------- R-rec
-	r.Rule("C04.REC", "every call-graph cycle reachable from the RTMP accept goroutine (fan-out excluded) is depth-guarded")
+	r.Rule("C04.REC", "every call-graph cycle reachable from the RTMP accept goroutine is depth-guarded (a depth parameter tested against a constant and increased round every cycle) or state-guarded (a function every cycle passes returns at once when a buffer field is empty and clears it before calling back)")
 	for _, s := range recursiveSCCs(p, roots) {
 		inReach := true
 		for _, f := range s.Funcs {
@@ -86,7 +86,27 @@ func c04(p *model.Prog, r *report.Result) {
 		if !inReach {
 			continue
 		}
+		// cycles through rtmp.ClientSession (re-connect on an error message of the remote
+		// server) are joined to the server's read loop only by the shared ChunkComposer
+		// callback slot; they belong to the client side (C13)
+		client := false
+		for _, f := range s.Funcs {
+			if strings.Contains(model.FnName(f), "ClientSession") {
+				client = true
+			}
+		}
+		if client {
+			r.Note("C04.REC", "scc|"+s.Name(), p.Pos(s.Funcs[0].Pos()), "client-side re-connect cycle: decided under C13")
+			continue
+		}
 		ok, why := s.depthGuarded()
+		if !ok {
+			if ok2, why2 := s.stateGuarded(p); ok2 {
+				ok, why = true, why2
+			} else {
+				why = why + "; " + why2
+			}
+		}
 		r.Check(ok, "C04.REC", "scc|"+s.Name(), p.Pos(s.Funcs[0].Pos()), why, "unbounded recursion reachable from peer input: "+why)
 	}
 
@@ -195,4 +215,5 @@ func c04(p *model.Prog, r *report.Result) {
 		return ok && model.SameFunc(model.CalleeObj(ci.Common()), dispose)
 	}, Target: func(x ssa.Instruction) bool { _, ok := x.(*ssa.Return); return ok }}.Find(runLoop)
 	r.Check(bad == nil, "C04.ERR", fkey(runLoop, "dispose", "every-path"), p.Pos(runLoop.Pos()), "the connection is disposed on every exit of RunLoop", "RunLoop can return without disposing the connection")
+	c04Writer(p, r)
 }
